@@ -396,6 +396,15 @@ func (idx *RoaringMetadataIndex) queryNumeric(bsiIndex *bsi.BSI, filter Filter) 
 		result.And(bsiIndex.CompareValue(0, bsi.LE, maxVal, 0, nil))
 		return result, nil
 
+	case OpNotRange: // Has the field, value outside [value, value2]
+		inRange, err := idx.queryNumeric(bsiIndex, Filter{Field: filter.Field, Operator: OpRange, Value: filter.Value, Value2: filter.Value2})
+		if err != nil {
+			return nil, err
+		}
+		result := bsiIndex.GetExistenceBitmap().Clone()
+		result.AndNot(inRange)
+		return result, nil
+
 	default:
 		return nil, fmt.Errorf("unsupported operator for numeric field: %s", filter.Operator)
 	}
@@ -448,7 +457,8 @@ const (
 	OpNotIn Operator = "not_in" // Not in a set of values
 
 	// Range operators
-	OpRange Operator = "range" // Within a range [Value, Value2]
+	OpRange    Operator = "range"     // Within a range [Value, Value2]
+	OpNotRange Operator = "not_range" // Has the field, outside the range [Value, Value2]
 
 	// Existence operators
 	OpExists    Operator = "exists"     // Field exists (has any value)
@@ -559,6 +569,10 @@ func Not(filter Filter) Filter {
 		filter.Operator = OpNotExists
 	case OpNotExists:
 		filter.Operator = OpExists
+	case OpRange:
+		filter.Operator = OpNotRange
+	case OpNotRange:
+		filter.Operator = OpRange
 	}
 	return filter
 }
